@@ -439,17 +439,18 @@ func c13Run(c c13Case) (sig, msg string) {
 	var wgFinite, wgAll, wgX sync.WaitGroup
 	closingSide := -1
 	for _, a := range c.Actors {
-		if a.Kind == "closer" {
+		if a.Kind == "closer" || a.Kind == "expire" {
 			closingSide = a.Side
 		}
 	}
+	likeClose := c.Scenario == "close" || c.Scenario == "timeout"
 	start := make(chan struct{})
 	t0 := time.Now()
 	panics := make(chan string, len(c.Actors)+1)
 	for ai, a := range c.Actors {
 		ai, a := ai, a
 		finite := a.Kind != "reader"
-		if c.Scenario == "close" {
+		if likeClose {
 			finite = false
 		}
 		wgAll.Add(1)
@@ -602,6 +603,26 @@ func c13Run(c c13Case) (sig, msg string) {
 						}
 						runtime.Gosched()
 					}
+				case "expire":
+					// a deadline that passes while the handshake waits for the silent peer; afterwards the
+					// deadline is lifted and Handshake is called once more
+					conn.SetDeadline(time.Now().Add(time.Duration(a.N) * time.Millisecond))
+					// wait until the deadline has made some caller's handshake fail (callers start at
+					// their triggers, 300 ms at the latest), then lift it
+					for i := 0; i < 400; i++ {
+						rmu.Lock()
+						n := len(res.hsErr[a.Side])
+						rmu.Unlock()
+						if n > 0 {
+							break
+						}
+						time.Sleep(5 * time.Millisecond)
+					}
+					conn.SetDeadline(time.Time{})
+					err := conn.Handshake()
+					rmu.Lock()
+					res.hsErr[a.Side] = append(res.hsErr[a.Side], err)
+					rmu.Unlock()
 				case "closer":
 					atomic.StoreInt32(&closing, 1)
 					closeAt.CompareAndSwap(nil, time.Now())
@@ -713,7 +734,7 @@ func c13Run(c c13Case) (sig, msg string) {
 			go func() { defer wgAll.Done(); defer cw.Done(); defer nw.tick(); conns[s].Close() }()
 		}
 	}
-	if c.Scenario == "close" {
+	if likeClose {
 		if s, m := waitQuiet(&wgX, "calls of the closing side"); s != "" {
 			abort()
 			return s, m
@@ -790,7 +811,23 @@ func c13Judge(c c13Case, res *c13Result) (sig, msg string) {
 	if res.stateBad != "" {
 		return "state-inconsistent", res.stateBad
 	}
-	closeScenario := c.Scenario == "close"
+	closeScenario := c.Scenario == "close" || c.Scenario == "timeout"
+	if c.Scenario == "timeout" {
+		for s := 0; s < 2; s++ {
+			for i, e := range res.hsErr[s] {
+				if len(res.hsErr[1-s]) > 0 && s != 0 && len(res.hsErr[0]) == 0 {
+					break
+				}
+				if e == nil {
+					return "handshake-result-differs", fmt.Sprintf("the peer never answered and the deadline passed inside the handshake, yet Handshake caller %d of side %d got nil (the others: %v)", i, s, res.hsErr[s])
+				}
+				if !c13SameErr(e, res.hsErr[s][0]) {
+					return "handshake-result-differs", fmt.Sprintf("Handshake callers of side %d saw different results after a deadline expired inside the handshake: %v / %v", s, res.hsErr[s][0], e)
+				}
+			}
+		}
+		return "", ""
+	}
 	for s := 0; s < 2; s++ {
 		for i, e := range res.hsErr[s] {
 			if !closeScenario {
@@ -1199,6 +1236,22 @@ func c13GenClose(t *rapid.T) c13Case {
 	return c
 }
 
+func c13GenTimeout(t *rapid.T) c13Case {
+	c := c13Case{Scenario: "timeout", Suite: rapid.SampledFrom(vfSuites).Draw(t, "suite"), Seed: rapid.Uint64().Draw(t, "seed"),
+		YieldPct: rapid.SampledFrom([]int{0, 10, 50}).Draw(t, "yield"), Gate: [2]int{-1, -1}}
+	x := rapid.IntRange(0, 1).Draw(t, "side")
+	// the peer stalls: nothing it writes from its k-th transport write on gets through
+	c.Gate[1-x] = rapid.IntRange(0, 1).Draw(t, "peerGate")
+	n := rapid.IntRange(1, 4).Draw(t, "ncallers")
+	for i := 0; i < n; i++ {
+		c.Actors = append(c.Actors, c13Actor{Side: x, Kind: "hs", Trig: c13GenTrig(t, 6)})
+	}
+	c.Actors = append(c.Actors, c13Actor{Side: x, Kind: "expire", Trig: "t0", N: rapid.IntRange(5, 80).Draw(t, "deadlineMs")})
+	// somebody drives the peer's handshake; the harness closes it at the end
+	c.Actors = append(c.Actors, c13Actor{Side: 1 - x, Kind: "hs", Trig: "t0"})
+	return c
+}
+
 func c13Class(c c13Case) []string {
 	cl := []string{c.Scenario}
 	if !c.Pre {
@@ -1273,6 +1326,16 @@ func TestVF_C13_Close(t *testing.T) {
 	vfRapid(t, rec, "close", vfN(300, 2400), func(t *rapid.T) { c13Check(t, rec, c13GenClose(t)) })
 }
 
+func TestVF_C13_Timeout(t *testing.T) {
+	if vfStack != "tlcp" {
+		// the datagram handshake sets and clears the transport's read deadline itself (retransmission
+		// timeouts), so an application deadline during the handshake is not a defined way to end it there
+		t.Skip("stream stack only")
+	}
+	rec := vfRec("C13", "C13e-handshake-timeout", "a peer that stalls at its 1st or 2nd transport write, 1..4 Handshake callers on the other side started at generated points, and a deadline of 5..80 ms set on that connection; after it has passed the deadline is lifted and Handshake is called again; built with -race; oracle: every caller, the late one included, sees the same non-nil result; non-trivial = at least two callers; distinct = the case")
+	vfRapid(t, rec, "timeout", vfN(120, 1200), func(t *rapid.T) { c13Check(t, rec, c13GenTimeout(t)) })
+}
+
 func init() {
 	rp := func(raw json.RawMessage) error {
 		var c c13Case
@@ -1289,6 +1352,7 @@ func init() {
 	}
 	vfRegisterReplay("C13a-duplex", rp)
 	vfRegisterReplay("C13b-close", rp)
+	vfRegisterReplay("C13e-handshake-timeout", rp)
 }
 
 var _ = errors.New
